@@ -36,19 +36,44 @@ Definition query_ok_b (static : string) (q : values) (rawquery : string) : bool 
    path: the generated path handed to the load balancer (url_pattern after substitution);
    its part before the first '?' is the path proper, the rest the query written in
    url_pattern.  o_path is what a backend obtains by decoding the request path once. *)
+(* the request target handed to the executor (URL.RequestURI: escaped path, then '?' and the raw
+   query).  "host followed by the generated path" is about the path AS GENERATED: where the
+   generated path part pp is a valid escaped path (net/url validEncoded: letters, digits,
+   - _ . ~ , the sub-delimiters and : @ [ ] / , and percent escapes) the path of the target
+   is pp byte for byte.  Otherwise pp contains a byte that cannot stand raw in a request target
+   (space, double quote, less-than, greater-than, backslash, caret, backquote, braces, bar, or
+   a byte >= 0x80) and Go itself re-escapes the decoded path (EscapedPath falls back to the
+   default escaping of Path); there the comparison is on the once-decoded paths. *)
+Definition wire_ok (pp wire rawquery : string) : Prop :=
+  let '(wp, wq, _) := cut c_qm wire in
+  wq = rawquery /\
+  (if valid_encoded MPath pp then wp = pp
+   else exists d, path_unescape wp = Some d /\ path_unescape pp = Some d).
+
+Definition wire_ok_b (pp wire rawquery : string) : bool :=
+  let '(wp, wq, _) := cut c_qm wire in
+  str_eqb wq rawquery &&
+  (if valid_encoded MPath pp then str_eqb wp pp
+   else match path_unescape wp, path_unescape pp with
+        | Some a, Some b => str_eqb a b
+        | _, _ => false
+        end).
+
 Definition url_ok (hosts : list string) (path : string) (q : values) (o : called) : Prop :=
   let '(pp, static, _) := cut c_qm path in
   In (o_host o) hosts /\
   path_unescape pp = Some (o_path o) /\
   o_frag o = "" /\
-  query_ok static q (o_rawquery o).
+  query_ok static q (o_rawquery o) /\
+  wire_ok pp (o_wire o) (o_rawquery o).
 
 Definition url_ok_b (hosts : list string) (path : string) (q : values) (o : called) : bool :=
   let '(pp, static, _) := cut c_qm path in
   str_mem (o_host o) hosts &&
   opt_str_eqb (path_unescape pp) (o_path o) &&
   str_eqb (o_frag o) "" &&
-  query_ok_b static q (o_rawquery o).
+  query_ok_b static q (o_rawquery o) &&
+  wire_ok_b pp (o_wire o) (o_rawquery o).
 
 (* load balancer + http proxy driven directly: a url_pattern with a '#' is outside the
    statement ("with or without a static query"); nothing is said when no backend is called *)
